@@ -71,7 +71,27 @@ REENTRY_HOOK: Optional[Any] = None
 _CLASS_CACHE: Dict[str, Any] = {}
 
 
-def make_function(name: str, fspec: Dict[str, Any], env: Any = None) -> FilterFunction:
+def new_at(make: Any, graves: Optional[set], limit: int = 600) -> Any:
+    """``make()`` -- but, when ``graves`` holds addresses of objects of that kind that have died,
+    allocate until the new object lies where one of them was (the rejects are kept alive meanwhile,
+    so the allocator works through its free blocks).  Address reuse after death is what an allocator
+    does anyway; here it is made to happen instead of left to chance.  Returns (object, reused)."""
+    if not graves:
+        return make(), False
+    rejects = []
+    try:
+        for _ in range(limit):
+            o = make()
+            if id(o) in graves:
+                graves.discard(id(o))
+                return o, True
+            rejects.append(o)
+        return rejects.pop(), False
+    finally:
+        del rejects
+
+
+def make_function(name: str, fspec: Dict[str, Any], env: Any = None, graves: Optional[Dict[str, set]] = None) -> FilterFunction:
     ret, behav = fspec["ret"], fspec.get("behav", "first")
 
     def call(self: Any, *args: Any) -> Any:
@@ -95,6 +115,20 @@ def make_function(name: str, fspec: Dict[str, Any], env: Any = None) -> FilterFu
                 if isinstance(a, jp.JSONPathNodeList):
                     return a
             return jp.JSONPathNodeList()
+        if behav == "typed":
+            # a function that tells JSON-distinct but Python-equal arguments apart (1, true, 1.0, -0.0)
+            a = args[0] if args else None
+            if a is jp.NOTHING:
+                t = "nothing"
+            elif isinstance(a, jp.JSONPathNodeList):
+                t = f"nodes:{len(a)}"
+            elif a is None or isinstance(a, (bool, int, float, str)):
+                t = f"{type(a).__name__}:{a!r}"
+            else:
+                t = type(a).__name__
+            if ret == "L":
+                return t.startswith(("bool", "float"))
+            return t
         if ret == "L":
             if behav == "const":
                 return True
@@ -129,7 +163,9 @@ def make_function(name: str, fspec: Dict[str, Any], env: Any = None) -> FilterFu
         base = type(f"ProbeBase_{sig or 'none'}", (FilterFunction,), {"arg_types": [T[a] for a in fspec["args"]], "return_type": T["V"], "__call__": lambda self, *a: None})
         _CLASS_CACHE[sig] = base
     cls = type(f"Probe_{name}", (base,), {"return_type": T[ret], "__call__": call})
-    inst = cls()
+    inst, reused = new_at(cls, graves.get("fn") if graves else None)
+    if reused:
+        graves["reused_fn"] = graves.get("reused_fn", 0) + 1  # type: ignore[assignment,operator]
     inst.env = env
     inst.calls = 0
     inst.fault_at = None
@@ -140,9 +176,17 @@ def make_function(name: str, fspec: Dict[str, Any], env: Any = None) -> FilterFu
 _ENV_ATTRS = ("nondeterministic", "max_recursion_depth", "min_int_index", "max_int_index")
 
 
-def make_env(spec: Dict[str, Any]) -> jp.JSONPathEnvironment:
+def make_env(spec: Dict[str, Any], graves: Optional[Dict[str, set]] = None) -> jp.JSONPathEnvironment:
     if spec.get("module"):
         return jp.DEFAULT_ENV
+
+    def construct(cls: Any) -> Any:
+        env, reused = new_at(lambda: cls.__new__(cls), graves.get("env") if graves else None)
+        if reused:
+            graves["reused_env"] = graves.get("reused_env", 0) + 1  # type: ignore[assignment,operator]
+        env.__init__()
+        return env
+
     attrs = {k: v for k, v in (spec.get("attrs") or {}).items() if k in _ENV_ATTRS}
     setup = spec.get("setup") or []
     if attrs or setup:
@@ -152,15 +196,15 @@ def make_env(spec: Dict[str, Any]) -> jp.JSONPathEnvironment:
             def setup_function_extensions(self: Any) -> None:
                 jp.JSONPathEnvironment.setup_function_extensions(self)
                 for name, fspec in setup:
-                    self.function_extensions[name] = make_function(name, fspec, self)
+                    self.function_extensions[name] = make_function(name, fspec, self, graves)
 
             ns["setup_function_extensions"] = setup_function_extensions
         cls = type("SimEnv", (jp.JSONPathEnvironment,), ns)
-        env = cls()
+        env = construct(cls)
     else:
-        env = jp.JSONPathEnvironment()
+        env = construct(jp.JSONPathEnvironment)
     for name, fspec in spec.get("funcs") or []:
-        env.function_extensions[name] = make_function(name, fspec, env)
+        env.function_extensions[name] = make_function(name, fspec, env, graves)
     return env
 
 
